@@ -96,6 +96,11 @@ func faultResponder(p *peer, ci, ri int, req *wireMsg, w io.Writer) bool {
 	case "bad_field":
 		w.Write([]byte("HTTP/1.1 200 OK\r\nThis is not a field line\r\nContent-Length: 2\r\n\r\nok"))
 		return true
+	case "bad_field_ctl":
+		// a malformed field line carrying control characters: whatever the proxy tells the client about it must still be
+		// a well-formed message
+		w.Write([]byte("HTTP/1.1 200 OK\r\nThis is \x01not\x02 a field \x7fline\x1b[31m\r\nContent-Length: 2\r\n\r\nok"))
+		return true
 	case "bad_chunk_size":
 		w.Write(append(append([]byte{}, head...), []byte("3e8\r\n"+string(c12Body[:1000])+"\r\nzz\r\n"+string(c12Body[1000:1100])+"\r\n0\r\n\r\n")...))
 		return true
@@ -133,6 +138,7 @@ type c12Env struct {
 	direct, via, mitm, viaRefused, viaTimeout *fwd
 	byLog                                     map[string][3]*fwd // --log-http mode -> direct, via, mitm
 	rejMitm                                   *fwd
+	stall                                     map[string]*fwd
 	peers                                     []*peer
 }
 
@@ -140,7 +146,7 @@ func newC12Env() *c12Env {
 	ca, _ := harnessCAs()
 	other := newHarnessCA("", "other-ca")
 	log := &hitLog{}
-	env := &c12Env{}
+	env := &c12Env{stall: map[string]*fwd{}}
 	names := []string{"origin.test", "*.origin.test", "garbage.test", "untrusted.test", "expired.test", "wrongname.test"}
 	o := startOrigin("O", log, nil, faultResponder)
 	ot := startOrigin("OT", log, &tls.Config{Certificates: []tls.Certificate{ca.leaf(names, "")}}, faultResponder)
@@ -247,6 +253,20 @@ func c12Run(e *env) {
 	defer rejm.stop()
 	rejm.mapName("rejproxy.test:3128", env.peers[7].addr())
 	env.rejMitm = rejm
+	// upstream proxies that accept the connection and then say nothing; the connect time-out is 1 s
+	stall := startPeer("S", env.peers[0].log, nil, func(p *peer, c net.Conn, idx int) {
+		io.Copy(io.Discard, c)
+	})
+	env.peers = append(env.peers, stall)
+	for _, scheme := range []string{"http", "https"} {
+		sf, err := startFwd(fwdCfg{Name: "fwd", Localhost: "allow", Upstream: scheme + "://stallproxy.test:3130", ConnectTimeout: time.Second})
+		if err != nil {
+			fatal("%v", err)
+		}
+		defer sf.stop()
+		sf.mapName("stallproxy.test:3130", stall.addr())
+		env.stall[scheme] = sf
+	}
 	full := e.args["full"] == "1"
 	var cases []c12Case
 	e.eachCase(func(raw json.RawMessage) {
@@ -362,6 +382,12 @@ func (env *c12Env) faultCase(c c12Case, k int, rejf *fwd) map[string]any {
 		if strings.HasPrefix(c.F, "proxy_connect") {
 			f = rejf
 		}
+		switch c.F {
+		case "proxy_stall":
+			f = env.stall["http"]
+		case "proxy_tls_stall":
+			f = env.stall["https"]
+		}
 		if c.F == "dial_refused" {
 			f = env.viaRefused
 		} else if c.F == "dial_timeout" {
@@ -415,6 +441,15 @@ func (env *c12Env) faultCase(c c12Case, k int, rejf *fwd) map[string]any {
 	}
 	complete := err == nil
 	res["complete"] = complete
+	if complete {
+		// a well-formed head: no control characters (other than HTAB) in any field line
+		for _, b := range got.RawHead {
+			if (b < 0x20 && b != '\t' && b != '\r' && b != '\n') || b == 0x7f {
+				fail(fmt.Sprintf("the response head contains the control character %#x: not a well-formed message", b))
+				break
+			}
+		}
+	}
 	if complete {
 		res["status"] = got.Status
 		res["errhdr"] = got.first("X-Forwarder-Error")
